@@ -219,8 +219,8 @@ def _cauchy_pair(a, b):
 
 # operations that are not differentiable (or whose factors are not unique) at the generated points: rank-deficient and
 # full QR, repeated eigenvalues; operations defined on symmetric matrices get symmetric directions
-OP_ADJOINT_SKIP = {'qr:rankdef', 'qr:eps', 'qr_full', 'eigh1', 'eigh1:mixed', 'eigh:mixed', 'eigh:closegap'}
-OP_ADJOINT_SYM = {'cholesky', 'eigh'}
+OP_ADJOINT_SKIP = {'max:ties', 'qr:rankdef', 'qr:eps', 'qr_full', 'eigh1', 'eigh1:mixed', 'eigh:closegap'}
+OP_ADJOINT_SYM = {'cholesky', 'eigh', 'eigh:mixed'}
 
 
 def op_adjoint_fails(case):
@@ -270,6 +270,14 @@ def op_adjoint_fails(case):
         return None          # complex values: the real inner product below does not apply (covered by the fft programs)
     lhs = sum(_cauchy_pair(xb, v) for xb, v in zip(xbars, vs))
     rhs = sum(_cauchy_pair(_op_seed(case, i, ys[i].shape), (y3[i] - y2[i])[D:]) for i in range(len(ys)))
+    if case['op'] == 'eigh:mixed':
+        # one direction has an exactly repeated eigenvalue at its base point (eigenvectors not differentiable there): the identity
+        # is required in the other directions, whose adjoints must not be affected by the degenerate one
+        x0 = np.array([a['v'] for a in case['args'] if a['k'] == 'U'][0], dtype=float)[0]
+        ok = [p for p in range(P) if np.min(np.diff(np.linalg.eigvalsh(x0[p]))) > 0.1]
+        if not ok:
+            return None
+        lhs, rhs = lhs[:, ok], rhs[:, ok]
     scale = max(1.0, float(np.max(np.abs(lhs))), float(np.max(np.abs(rhs))))
     if np.max(np.abs(lhs - rhs)) > 1e-7 * scale:
         d_bad = int(np.argmax(np.max(np.abs(lhs - rhs), axis=1) > 1e-7 * scale))
